@@ -74,8 +74,11 @@ func (fc *flushCtx) isLoadFalseEdge(fg *FlowGraph, b *cfg.Block, si int) bool {
 			continue
 		}
 		se, ok := ast.Unparen(call.Fun).(*ast.SelectorExpr)
-		if ok && se.Sel.Name == "Load" && selField(fg.Info, se.X) == fc.dirty {
-			return true
+		if ok && selField(fg.Info, se.X) == fc.dirty {
+			// Load() false, or a failed CompareAndSwap(true, _) : the flag was clear
+			if se.Sel.Name == "Load" || se.Sel.Name == "CompareAndSwap" && len(call.Args) == 2 && boolConst(fg.Info, call.Args[0]) == '1' {
+				return true
+			}
 		}
 	}
 	return false
